@@ -202,6 +202,8 @@ class P(Property):
     def spec_ok(self, case, out, spec):
         if spec is None:
             return True
+        if out.endswith(' LOST-WAKEUP'):
+            return False
         if not out.startswith('ok '):
             return False
         w = case.split()
